@@ -307,12 +307,32 @@ pub fn execute(scn: &RfScn, ctx: &mut Ctx) {
 pub fn unit(seed: u64, ctx: &mut Ctx, ctl: &mut UnitCtl) {
     let mut r = Rng::new(seed);
     let w = generate_file(&mut r);
+    unit_with(w, &mut r, 1, 1, ctx, ctl);
+}
+
+/// Large shapes (parts of more than 1024 points, more than 1024 parts): the same sweeps with a
+/// stride on truncation lengths and operation indices away from the record boundaries.
+pub fn large_unit(unit: u64, ctx: &mut Ctx, ctl: &mut UnitCtl) {
+    let mut r = Rng::new(0x13A + unit);
+    let cfg: [(i32, usize, usize); 8] = [(3, 1, 1500), (5, 1, 1025), (8, 1, 2000), (13, 1, 1100), (28, 1, 1300), (31, 1, 1030), (3, 1030, 2), (25, 2, 1200)];
+    let (ty, nparts, npts) = cfg[(unit as usize) % cfg.len()];
+    let mut shapes = vec![grid_spec(ty, 1, 3, 5), grid_spec(ty, nparts, npts, 9), grid_spec(ty, 1, 2, 70)];
+    for (i, s) in shapes.iter_mut().enumerate() {
+        tag_spec(s, i);
+    }
+    let w = WProg { calls: (0..3).map(WCall::W).collect(), shapes, others: vec![], ending: Ending::Drop, with_shx: true, stack: StackCfg::Direct };
+    ctx.stats.reach("large-file");
+    unit_with(w, &mut r, 11, 37, ctx, ctl);
+}
+
+fn unit_with(w: WProg, r: &mut Rng, trunc_stride: usize, op_stride: u32, ctx: &mut Ctx, ctl: &mut UnitCtl) {
     let Some(f) = produce(&w) else {
         ctx.fail("HARNESS", "invalid-scenario", "producer", "generated producer workload does not yield a valid file".to_string());
         ctl.after_case(ctx, || Scenario::RFault(RfScn { w: w.clone(), kind: RfKind::TruncShp(0), with_shx: false, rstack: StackCfg::Direct }));
         return;
     };
-    let rstacks = [StackCfg::Direct, StackCfg::Buf(*r.pick(&[1u32, 3, 7, 16, 64])), StackCfg::Buf(8192)];
+    let small = *r.pick(&[1u32, 3, 7, 16, 64]);
+    let rstacks = [StackCfg::Direct, StackCfg::Buf(small), StackCfg::Buf(8192)];
     let mut case = |kind: RfKind, with_shx: bool, rstack: StackCfg, ctx: &mut Ctx, ctl: &mut UnitCtl| {
         let scn = RfScn { w: w.clone(), kind, with_shx, rstack };
         if !ctl.before_case(|| Scenario::RFault(scn.clone())) {
@@ -325,7 +345,12 @@ pub fn unit(seed: u64, ctx: &mut Ctx, ctl: &mut UnitCtl) {
         }
         ctl.after_case(ctx, || Scenario::RFault(scn.clone()));
     };
+    // every length near the file start and near every record boundary; a stride elsewhere
+    let near = |len: usize| len <= 140 || len + 40 >= f.shp.len() || f.bounds.iter().any(|(s, e)| len + 40 >= *s && len <= *s + 60 || len + 40 >= *e && len <= *e + 40);
     for len in 0..=f.shp.len() {
+        if trunc_stride > 1 && !near(len) && len % trunc_stride != 0 {
+            continue;
+        }
         let rs = rstacks[len % 3];
         case(RfKind::TruncShp(len), false, rs, ctx, ctl);
         case(RfKind::TruncShp(len), true, rstacks[(len + 1) % 3], ctx, ctl);
@@ -341,6 +366,9 @@ pub fn unit(seed: u64, ctx: &mut Ctx, ctl: &mut UnitCtl) {
             let ops = [w0.borrow().devices[SHP].ops, w0.borrow().devices[SHX].ops];
             for dev in 0..2 {
                 for k in 0..ops[dev] {
+                    if op_stride > 1 && k > 60 && k % op_stride != 0 {
+                        continue;
+                    }
                     for kind in [FaultKind::Err(((k + dev as u32) % 6) as u8), FaultKind::Eintr] {
                         let mut plan = Plan::default();
                         plan.faults.push(Fault { dev: dev as u8, at: k, kind, persistent: false });
@@ -363,8 +391,8 @@ pub fn unit(seed: u64, ctx: &mut Ctx, ctl: &mut UnitCtl) {
     }
     for _ in 0..8 {
         let mut plan = Plan::default();
-        plan.dev[SHP] = gen_devcfg(&mut r, true);
-        plan.dev[SHX] = gen_devcfg(&mut r, true);
+        plan.dev[SHP] = gen_devcfg(r, true);
+        plan.dev[SHX] = gen_devcfg(r, true);
         case(RfKind::Plan(plan), r.chance(1, 2), rstacks[r.usize(0, 2)], ctx, ctl);
     }
 }
